@@ -194,15 +194,11 @@ func c14ProbePK(c *Ctx, set c14Set, n int, keys c14Keys, pk *rlwe.PublicKey) {
 		return ""
 	})
 	c14Vacuous(c, set, lvl, bound)
-	c.Probe("collective_key_works", fmt.Sprintf("cpk set=%s N=%d bound=%s", set.name, n, bound), "C14-cpk-noise", detail)
+	c.Probe("collective_key_works", fmt.Sprintf("cpk set=%s N=%d bound=%s", set.name, n, bound)+c14ProbeTag, "C14-cpk-noise", detail)
 }
 
-func c14KeyFinding(shape []int, dflt string) string {
-	if c14Ragged(shape) {
-		return "C14-genevk-len-m0"
-	}
-	return dflt
-}
+// (the ragged-decomposition defect C14-genevk-len-m0 is repaired: one finding key per key type)
+func c14KeyFinding(shape []int, dflt string) string { return dflt }
 
 func c14ProbeEVK(c *Ctx, set c14Set, n int, cfg c14Evk, in, out c14Keys, evk *rlwe.EvaluationKey, panicked bool) {
 	params := set.params
@@ -240,7 +236,7 @@ func c14ProbeEVK(c *Ctx, set c14Set, n int, cfg c14Evk, in, out c14Keys, evk *rl
 	if c14Ragged(shape) {
 		c.Count("evk_ragged_decomposition")
 	}
-	c.Probe("collective_key_works", fmt.Sprintf("evk set=%s %s N=%d shape=%s bound=2^%d", set.name, cfg, n, c14Shape(shape), bound.BitLen()),
+	c.Probe("collective_key_works", fmt.Sprintf("evk set=%s %s N=%d shape=%s bound=2^%d", set.name, cfg, n, c14Shape(shape), bound.BitLen())+c14ProbeTag,
 		c14KeyFinding(shape, "C14-evk-noise"), detail)
 }
 
@@ -273,12 +269,10 @@ func c14ProbeGAL(c *Ctx, set c14Set, n int, cfg c14Evk, keys c14Keys, galEl uint
 			dec.Decrypt(ct, p1)
 			dec.Decrypt(res, p2)
 			r := params.RingQ().AtLevel(cfg.lq)
-			r.INTT(p1.Value, p1.Value)
-			r.INTT(p2.Value, p2.Value)
 			exp := r.NewPoly()
-			r.Automorphism(p1.Value, galEl, exp)
+			r.AutomorphismNTT(p1.Value, galEl, exp)
 			r.Sub(p2.Value, exp, p2.Value)
-			if e := c14Norm(r, p2.Value, false); e.Cmp(bound) > 0 {
+			if e := c14Norm(r, p2.Value, true); e.Cmp(bound) > 0 {
 				return fmt.Sprintf("error=2^%d>bound=2^%d", e.BitLen(), bound.BitLen())
 			}
 			return ""
@@ -288,7 +282,7 @@ func c14ProbeGAL(c *Ctx, set c14Set, n int, cfg c14Evk, keys c14Keys, galEl uint
 	if c14Ragged(shape) {
 		c.Count("gal_ragged_decomposition")
 	}
-	c.Probe("collective_key_works", fmt.Sprintf("gal set=%s %s N=%d galEl=%d shape=%s bound=2^%d", set.name, cfg, n, galEl, c14Shape(shape), bound.BitLen()),
+	c.Probe("collective_key_works", fmt.Sprintf("gal set=%s %s N=%d galEl=%d shape=%s bound=2^%d", set.name, cfg, n, galEl, c14Shape(shape), bound.BitLen())+c14ProbeTag,
 		c14KeyFinding(shape, "C14-gal-noise"), detail)
 }
 
@@ -319,7 +313,7 @@ func c14ProbeRLK(c *Ctx, set c14Set, n int, cfg c14Evk, keys c14Keys, rlk *rlwe.
 		return ""
 	})
 	c14Vacuous(c, set, cfg.lq, bound)
-	c.Probe("collective_key_works", fmt.Sprintf("rlk set=%s %s N=%d shape=%s bound=2^%d", set.name, cfg, n, c14Shape(shape), bound.BitLen()),
+	c.Probe("collective_key_works", fmt.Sprintf("rlk set=%s %s N=%d shape=%s bound=2^%d", set.name, cfg, n, c14Shape(shape), bound.BitLen())+c14ProbeTag,
 		"C14-rlk-noise", detail)
 }
 
@@ -449,10 +443,10 @@ func c14CRSTie(c *Ctx, set c14Set) {
 		nx = nx<<8 | uint64(b)
 	}
 	// generous prefix of the stream: rejection rate < 1/2 per draw, one partial buffer per sampler and call
-	nbytes := ((total*set.n*8*4)/1024 + 4*len(reqs) + 8) * 1024
+	nbytes := ((total*set.nRing*8*4)/1024 + 4*len(reqs) + 8) * 1024
 	stream := make([]byte, nbytes)
 	_, _ = twin.Read(stream)
-	c.Emit("crs "+I(set.n)+" "+I(len(reqs))+" "+strings.Join(reqs, " ")+" "+Hex(stream), strings.Join(polys, "|")+" "+U(nx))
+	c.Emit("crs "+I(set.nRing)+" "+I(len(reqs))+" "+strings.Join(reqs, " ")+" "+Hex(stream), strings.Join(polys, "|")+" "+U(nx))
 	c.Count("crs_tie")
 }
 
@@ -515,8 +509,9 @@ func c14Mismatch(c *Ctx, set c14Set) {
 	{
 		cfg := c14Evk{set.maxQ(), set.maxP(), 0}
 		if set.maxP() < 0 {
-			c.Count("mismatch_galEl_skipped(no P: GenShare panics)")
-		} else {
+			cfg.b2 = 16
+		}
+		{
 			crp := gkg.SampleCRP(crs, cfg.params())
 			s1, s2, s3 := gkg.AllocateShare(cfg.params()), gkg.AllocateShare(cfg.params()), gkg.AllocateShare(cfg.params())
 			_ = gkg.GenShare(keys.sk[0], params.GaloisElement(1), crp, &s1)
@@ -543,27 +538,71 @@ func c14Mismatch(c *Ctx, set c14Set) {
 			c.Count("gal_agg_tie")
 		}
 	}
+	// every assignment of two mismatching shares A, B to the roles (share1, share2, output), the output
+	// being fresh (allocated like A or like B) or one of the operands (in place)
+	roles := func(kind, key string, a, b multiparty.EvaluationKeyGenShare, ca, cb c14Evk, lq, lp int) {
+		type role struct {
+			name   string
+			s1, s2 multiparty.EvaluationKeyGenShare
+			out    func() multiparty.EvaluationKeyGenShare
+		}
+		freshA := func() multiparty.EvaluationKeyGenShare { return evkg.AllocateShare(ca.params()) }
+		freshB := func() multiparty.EvaluationKeyGenShare { return evkg.AllocateShare(cb.params()) }
+		for _, r := range []role{
+			{"A+B->freshA", a, b, freshA}, {"A+B->freshB", a, b, freshB}, {"B+A->freshA", b, a, freshA}, {"B+A->freshB", b, a, freshB},
+			{"A+B->A", a, b, func() multiparty.EvaluationKeyGenShare { return a }}, {"A+B->B", a, b, func() multiparty.EvaluationKeyGenShare { return b }},
+			{"B+A->B", b, a, func() multiparty.EvaluationKeyGenShare { return b }}, {"B+A->A", b, a, func() multiparty.EvaluationKeyGenShare { return a }},
+		} {
+			report(kind+"_"+r.name, "AggregateShares", key, tieAgg(r.s1, r.s2, r.out(), lq, lp))
+		}
+	}
 	// 2. levels
 	if set.maxQ() > 0 {
-		a := mk(base, keys.sk[0])
-		b := mk(c14Evk{set.maxQ() - 1, lp0, 16}, keys.sk[1])
-		report("levelQ", "AggregateShares", "C14-evk-level-mismatch", tieAgg(a, b, evkg.AllocateShare(base.params()), base.lq, base.lp))
-		report("levelQ_receiver", "AggregateShares", "C14-evk-level-mismatch", tieAgg(b, b, evkg.AllocateShare(base.params()), base.lq, base.lp))
+		cb := c14Evk{set.maxQ() - 1, lp0, 16}
+		roles("levelQ", "C14-evk-level-mismatch", mk(base, keys.sk[0]), mk(cb, keys.sk[1]), base, cb, base.lq, base.lp)
 	}
 	if set.maxP() >= 0 {
-		a := mk(c14Evk{set.maxQ(), set.maxP(), 0}, keys.sk[0])
-		b := mk(c14Evk{set.maxQ(), set.maxP() - 1, 0}, keys.sk[1])
-		report("levelP", "AggregateShares", "C14-evk-level-mismatch", tieAgg(a, b, evkg.AllocateShare(c14Evk{set.maxQ(), set.maxP(), 0}.params()), set.maxQ(), set.maxP()))
+		ca, cb := c14Evk{set.maxQ(), set.maxP(), 0}, c14Evk{set.maxQ(), set.maxP() - 1, 0}
+		roles("levelP", "C14-evk-level-mismatch", mk(ca, keys.sk[0]), mk(cb, keys.sk[1]), ca, cb, set.maxQ(), set.maxP())
 	}
-	// 3. decomposition: same levels, BaseTwoDecomposition 16 vs 8 (different number of rows)
+	// 3. decomposition, same levels: BaseTwoDecomposition 16 vs 8 (different numbers of digits) and a pair of
+	//    different BaseTwoDecomposition values that need the SAME number of digits for every prime
 	{
-		a := mk(base, keys.sk[0])
-		b := mk(c14Evk{base.lq, base.lp, 8}, keys.sk[1])
-		report("decomposition_16+8", "AggregateShares", "C14-agg-decomp-unchecked", tieAgg(a, b, evkg.AllocateShare(base.params()), base.lq, base.lp))
-		report("decomposition_8+16", "AggregateShares", "C14-agg-decomp-unchecked", tieAgg(b, a, evkg.AllocateShare(c14Evk{base.lq, base.lp, 8}.params()), base.lq, base.lp))
+		cb := c14Evk{base.lq, base.lp, 8}
+		roles("decomposition_16_8", "C14-agg-decomp-unchecked", mk(base, keys.sk[0]), mk(cb, keys.sk[1]), base, cb, base.lq, base.lp)
+		found := false
+		for b1 := 30; b1 > 8 && !found; b1-- {
+			for b2 := b1 - 1; b2 > 8 && b2 >= b1-3 && !found; b2-- {
+				c1, c2 := c14Evk{base.lq, base.lp, b1}, c14Evk{base.lq, base.lp, b2}
+				s1, s2 := evkg.AllocateShare(c1.params()), evkg.AllocateShare(c2.params())
+				if IVec(s1.BaseTwoDecompositionVectorSize()) == IVec(s2.BaseTwoDecompositionVectorSize()) && s1.BaseTwoDecompositionVectorSize()[0] > 1 {
+					roles(fmt.Sprintf("decomposition_%d_%d_equal_digit_counts", b1, b2), "C14-agg-decomp-unchecked", mk(c1, keys.sk[0]), mk(c2, keys.sk[1]), c1, c2, base.lq, base.lp)
+					c.Count("mismatch_equal_digit_count_pair")
+					found = true
+				}
+			}
+		}
+		if !found {
+			c.Count("mismatch_no_equal_digit_count_pair")
+		}
 		// sanity: equal decompositions are accepted
+		a := mk(base, keys.sk[0])
 		if v := tieAgg(a, a, evkg.AllocateShare(base.params()), base.lq, base.lp); v != "combined" {
 			panic("c14: equal shares rejected")
+		}
+		// Galois shares go through the same aggregation
+		if set.maxP() >= 0 || true {
+			ca, cb := base, c14Evk{base.lq, base.lp, 8}
+			crpA, crpB := gkg.SampleCRP(crs, ca.params()), gkg.SampleCRP(crs, cb.params())
+			ga, gb := gkg.AllocateShare(ca.params()), gkg.AllocateShare(cb.params())
+			g := params.GaloisElement(1)
+			if gkg.GenShare(keys.sk[0], g, crpA, &ga) == nil && gkg.GenShare(keys.sk[1], g, crpB, &gb) == nil {
+				report("gal_decomposition_A+B->A", "GaloisKeyGenProtocol.AggregateShares", "C14-agg-decomp-unchecked", verdict(func() error { return gkg.AggregateShares(ga, gb, &ga) }))
+				report("gal_decomposition_B+A->freshA", "GaloisKeyGenProtocol.AggregateShares", "C14-agg-decomp-unchecked", verdict(func() error {
+					o := gkg.AllocateShare(ca.params())
+					return gkg.AggregateShares(gb, ga, &o)
+				}))
+			}
 		}
 	}
 	// 4. GenShare: CRP of another decomposition
